@@ -54,3 +54,27 @@ add("C17", "runtime monitoring: exact / ulp-bounded math oracle on printed resul
     "Exploration: all 17 built-ins x 0-2 arguments x 12 kinds (+ sampled 3-4), numeric batches over boundary and random doubles (abs/sqrt/round exact via big arithmetic, trig within 2 ulp), ঘাত vs ** side by side, min/max over arrangements in list and array forms, ক্লক() bracketed around the child process.",
     "Trusted: Go math package as 'the platform's math library' for sin/cos/tan/pow; math/big for exact checks.",
     "DESIGN.md §4 C17")
+add("C07", "runtime monitoring: abnormal-termination monitor (recovered Go panics in-process, worker death on fatal errors, CLI exit status / panic banner) over the operator, built-in and access-form matrices, untyped random programs, mutated programs and nesting/size stress",
+    "Exploration: the whole operator x operand matrix, every built-in x argument kinds incl. boundary magnitudes, every access form x value kind x index kind, seeded untyped random programs (dense faults), token mutations of valid programs, 10000-deep nests, self-containing structures; every execution must end normally or with exit 70 and a diagnostic.",
+    "Trusted: Go's recover() for ordinary panics; the parent process attributes unrecoverable deaths to the journalled case.",
+    "DESIGN.md §4 C07")
+add("C13", "runtime monitoring: repetition monitor — the same program on the same input executed many times in one process and as fresh processes with varied environment; Go's per-iteration map randomisation is the schedule",
+    "Exploration: shipped examples, programs biased to map-iteration-order dependence (object literals with probe initialisers incl. repeated and case-colliding keys, listings used as data, diagnostics rendering literals, failing initialisers), general random programs; 8/40 in-process and 4/15 process executions each; stdout bytes, exit status and first diagnostic must be identical.",
+    "Trusted: nothing beyond byte comparison; reach is bounded by the repetition count (escape probability stated in the evidence rule).",
+    "DESIGN.md §4 C13")
+add("C16", "runtime monitoring: metamorphic origin-independence monitor — pairwise equality of observation records across 12-21 producers of one value in ~170 one-hole contexts",
+    "Exploration: every context x value group compares every producer's (stdout, exit status, normalised first diagnostic) with the literal producer's, in-process and through the binary.",
+    "Trusted: the producers are equal values by the language's own definitions; diagnostics are normalised by removing line tags and quoted renderings.",
+    "DESIGN.md §4 C16")
+add("C18", "runtime monitoring: six metamorphic transform families (layout, digit script, logical synonyms, renaming, parentheses, dead code) applied on the spec lexer's tokens / reference parser's spans; original vs variant observation equality",
+    "Exploration: shipped examples, hand-written programs and seeded generated programs (valid and faulting) x 13 variants each; stdout bytes, exit status and normalised first diagnostic must agree.",
+    "Trusted: the spec lexer and reference parser used to place the transforms (they never touch the code under test).",
+    "DESIGN.md §4 C18")
+add("C19", "runtime monitoring: outcome-class oracle on (exit status, stdout, stderr) of the plain binary over argv shapes x program classes x stdin shapes; InputRead hook counts stdin reads in-process; strace fault injection for unreadable files (thorough)",
+    "Exploration: 21 argv shapes, ~1300 (program, stdin) pairs over every outcome class with 0-4 ইনপুট calls, error positions, ইনপুট corner cases; each compared with refborno's class, stdout (prompts, trimmed lines) and diagnostics.",
+    "Trusted: refborno; the spec front end for the static-error class.",
+    "DESIGN.md §4 C19")
+add("C20", "runtime monitoring: REPL transcript monitor on the single-pipe (stdout+stderr) stream split at prompts — response count, per-line model, fresh-session differential, exit status",
+    "Exploration: every session of <=2/<=3 lines over a 42-line pool and seeded random sessions of up to 40 lines, with and without a final newline.",
+    "Trusted: refborno in REPL mode for self-contained lines; the same binary's fresh single-line session as differential baseline.",
+    "DESIGN.md §4 C20")
